@@ -479,7 +479,7 @@ Section Honest.
 
   (** the client holds the response [f] for its transformed tuple, dated [L]: the cache holds, under one of
       the two keys of the URL, an entry with that variant which is not older than [L] — or no entry at all
-      (the response was not admitted) *)
+      (the response was not stored) *)
   Definition holds_copy (c : vcache) (r : request) (f : fat) (L : N) : Prop :=
     (exists k0 e0, (k0 = key_pq r \/ k0 = key_p r) /\ pc_find k0 c = Some e0 /\
                    vr_get_by_request (ve_var e0) r = Ok (Hit (f, own r)) /\ L <= ve_created e0)
@@ -522,7 +522,7 @@ Section Honest.
     intros Hlk Hhit. destruct (vlookup_found _ _ _ _ _ _ Hlk) as (Hk & _ & F1).
     left. exists k, e. repeat split; try assumption. lia.
   Qed.
-  (** ... or computed and admitted to the cache (the date it is given is the time of the step, which is the new entry's) *)
+  (** ... or computed and stored in the cache (the date it is given is the time of the step, which is the new entry's) *)
   Lemma stored_gives_copy c1 hs' now r f lg lm_of cached st' rp lg' calls :
     may_store cache_on (rq_method r) f = true ->
     new_and_cache hstate cache_on negotiate rules_of dbg c1 hs' now r f lg lm_of cached = Ok (st', rp, lg', calls) ->
